@@ -3944,6 +3944,11 @@ Octagonal_Shape<T>
                                      coeff, term)) {
       continue;
     }
+    // Trivial constraints (tautologies and inconsistencies) mention no
+    // variable: they select no cell of the matrix (and `coeff' is zero).
+    if (num_vars == 0) {
+      continue;
+    }
 
     typedef typename OR_Matrix<N>::const_row_iterator Row_iterator;
     typedef typename OR_Matrix<N>::const_row_reference_type Row_reference;
